@@ -154,7 +154,7 @@ Theorem sm_decode_spec default cmd seq f tl codec short opts0 opts payload sch v
   decode_message (w_esm f) codec (w_sm f) = Ok (short, opts0) ->
   tlvs_meaning (w_esm f) codec tl opts0 [] = Ok (opts, payload) ->
   smpp_to_time (w_sched f) = Ok sch -> smpp_to_time (w_valid f) = Ok val ->
-  (short = [] /\ payload <> []) \/ (short <> [] /\ payload = []) ->
+  (short = [] \/ payload = []) ->
   let pdu := spec_pdu cmd 0 seq (spec_sm_body f) in
   exists h, parse_header pdu = Ok h /\ decode default pdu h = Ok (MSm cmd (sm_of seq f default codec short payload opts sch val)).
 Proof.
@@ -215,9 +215,9 @@ Proof.
   { rewrite Epdu, app_length, Hlen. lia. }
   rewrite (parse_tlvs_meaning (w_esm f) codec pdu tl (S (length pdu)) _ opts0 [] Hwtl); [|pose proof (tlv_count_le tl); lia|exact Ktl|exact Hplen].
   rewrite Htm. cbn [rbind]. cbv beta iota. rewrite Hts, Htv. cbn [rbind]. rewrite (check_len_ok _ _ Lsv). cbn [rbind].
-  destruct Hxor as [[-> Hp2]|[Hs2 ->]].
-  - destruct payload as [|p0 pt]; [contradiction|]. cbn [andb]. reflexivity.
-  - destruct short as [|s0 st]; [contradiction|]. cbn [andb]. reflexivity.
+  destruct Hxor as [->| ->].
+  - cbn [andb]. reflexivity.
+  - destruct short as [|s0 st]; cbn [andb]; reflexivity.
 Qed.
 
 
@@ -402,8 +402,7 @@ Record sm_domain (default : enc) (m : smsg) : Prop := {
           /\ mem (ph_ton (s_src m)) TON_values = true /\ mem (ph_npi (s_src m)) NPI_values = true;
   d_dst : ok_cstr (ph_number (s_dst m)) /\ (length (ph_number (s_dst m)) <= 20)%nat
           /\ mem (ph_ton (s_dst m)) TON_values = true /\ mem (ph_npi (s_dst m)) NPI_values = true;
-  d_opts : Forall opt_wf (s_opts m);
-  d_text : text_of m <> []
+  d_opts : Forall opt_wf (s_opts m)          (* the text may be empty: sm_length 0 and no message_payload *)
 }.
 
 Lemma header_of_spec_pdu cmd seq body :
@@ -427,7 +426,7 @@ Theorem sm_roundtrip default cmd m b sch val :
   exists h ce bytes, parse_header b = Ok h /\ decode default b h = Ok (MSm cmd (sm_back m default ce bytes sch val))
                      /\ (exists e', smpp_encode default m (text_of m) = Ok (bytes, e')) /\ codec_decode ce bytes = Ok (text_of m).
 Proof.
-  intros Hcmd Hc [Hst Hpre Hstrict Hudhi Hdef Henc [Ssv Lsv] (Ssr & Lsr & Ht1 & Hn1) (Sds & Lds & Ht2 & Hn2) Hopts Htext] Htsch Htval He.
+  intros Hcmd Hc [Hst Hpre Hstrict Hudhi Hdef Henc [Ssv Lsv] (Ssr & Lsr & Ht1 & Hn1) (Sds & Lds & Ht2 & Hn2) Hopts] Htsch Htval He.
   destruct (sm_layout default cmd m b He) as (sm & ptlv & opts & dc & sched & valid & Eb & Hts & Htv & Hro & Htx & Rseq & Rtot).
   rewrite Hpre in Htx. destruct Htx as (bytes & e' & Hse & Hdc & Hcase).
   destruct (Htsch sched Hts) as [Ssc Hps]. destruct (Htval valid Htv) as [Svl Hpv].
@@ -470,10 +469,10 @@ Proof.
   assert (exists short payload, decode_message (w_esm f) ce (w_sm f) = Ok (short, [])
             /\ tlvs_meaning (w_esm f) ce tl [] [] = Ok (norm_opts (s_opts m), payload)
             /\ short = (if in_payload m bytes then [] else text_of m) /\ payload = (if in_payload m bytes then text_of m else [])
-            /\ ((short = [] /\ payload <> []) \/ (short <> [] /\ payload = []))) as (short & payload & Hdm & Htm & Es & Ep & Hxor).
+            /\ (short = [] \/ payload = [])) as (short & payload & Hdm & Htm & Es & Ep & Hxor).
   { cbn [f w_esm w_sm]. unfold tl. destruct Hway as [(Hip & -> & _ & _)|(Hip & -> & _ & _)]; rewrite Hip.
     - exists (text_of m), []. split; [exact Hdmb|]. split; [cbn [app]; rewrite (meaning_of_opts _ _ _ [] [] Hopts Hoks); reflexivity|].
-      split; [reflexivity|]. split; [reflexivity|]. right. split; [exact Htext|reflexivity].
+      split; [reflexivity|]. split; [reflexivity|]. right. reflexivity.
     - exists [], (text_of m). split; [rewrite (decode_message_plain _ _ _ Hudhi), (codec_decode_nil ce); [reflexivity|]|].
       { clear - Hce Hdef Henc Hdc Hse Hstrict. (* the codec chosen on reception is a modelled one *)
         assert (dc = 0 \/ dc = SmppDataCoding_ascii \/ dc = SmppDataCoding_latin_1 \/ dc = SmppDataCoding_ucs2) as Hdcs.
@@ -486,7 +485,7 @@ Proof.
         destruct Hdcs as [->|[->|[->| ->]]]; cbv in Hce; injection Hce as <-; [exact Hdef|reflexivity|reflexivity|reflexivity]. }
       split.
       { cbn [app tlvs_meaning]. rewrite Z.eqb_refl, Hdmb. cbn [rbind fst snd app]. rewrite (meaning_of_opts _ _ _ [] (text_of m) Hopts Hoks). reflexivity. }
-      split; [reflexivity|]. split; [reflexivity|]. left. split; [reflexivity|exact Htext]. }
+      split; [reflexivity|]. split; [reflexivity|]. left. reflexivity. }
   destruct (sm_decode_spec default cmd (s_seq m) f tl ce short [] (norm_opts (s_opts m)) payload sch val
               Hcmd Hc Rseq Hwf eq_refl Hwtl Hsize Hce Hdm Htm Hps Hpv Hxor) as (h & Hph & Hd).
   rewrite <- Eb' in Hph, Hd.
